@@ -4737,7 +4737,9 @@ func (n *FlowSpecNLRI) Serialize(options ...*MarshallingOption) ([]byte, error) 
 	length := n.Len(options...)
 	if length > 0xfff {
 		return nil, fmt.Errorf("too large: %d", length)
-	} else if length < 0xf0 {
+	} else if length <= 0xf0 {
+		// Len() includes the length octet(s): up to 239 octets of components
+		// go with the 1-octet form
 		length -= 1
 		buf = append([]byte{byte(length)}, buf...)
 	} else {
